@@ -1,6 +1,6 @@
 package nilness
 
-// witnesses: tsdefault_same, tscase_same, conv_src
+// witnesses: tsdefault_same, tscase_same, conv_src, conv_ptr, conv_str, conv_other
 // Replay driver for the transfer rules of processBlock (nilness.impl$1, C15): the facts exported
 // for a function must be sound for its real executions. Scenario: in the default branch of a
 // type switch `switch y := x.(type)` the variable y IS the interface operand x; if x holds a
